@@ -371,7 +371,9 @@ func runCacheOnce(c CacheCase) (*evid.Failure, bool) {
 	}
 	if nontrivial {
 		evid.NonTrivialKey("cache", fmt.Sprintf("%+v", c))
-		evid.Sample("cache", shorten(c))
+		if evid.ShardIdx == 0 {
+			evid.Sample("cache", shorten(c))
+		}
 	}
 	return nil, false
 }
@@ -632,6 +634,9 @@ func runRaceOnce(c RaceCase) (*evid.Failure, bool) {
 	evid.LabelN("race:lookups-overlapping-an-overwrite", int64(contended))
 	if len(c.Workers) >= 2 {
 		evid.NonTrivialKey("race", fmt.Sprintf("%+v", c))
+		if evid.ShardIdx == 0 && contended > 0 {
+			evid.Sample("race", c)
+		}
 	}
 	return nil, false
 }
